@@ -226,6 +226,9 @@ var c05Progs = []string{
 	"if(c, x, y)", "if(x, x, y)", "c ? x : y", "get(o, x)", "get(o, y)", "get(xs, i, x)", "get(xs, k, x)", "get(m, k, y)", "get(x, y)",
 	"x + y", "x == y", "x < y", "-x", "!x", "len(x)", "len(x, y)", "string(x)", "union([x], [y])", "max(x, y)", "max([x])",
 	"isset(m, k)", "isset(m, x)", "g(x)", "g(x, y)", "g(y)", "h(x)", "h(x, y)", "nofun(x)", "xs[0](x)", "fs[0](x)", "fs[0](x, y)", "x(y)",
+	// one variable (one type object) in two positions of a literal's type
+	"[{f: x, g: x}, {f: x, g: y}]", "[{f: x, g: x}, {f: y, g: x}]", "[{f: x, g: x}, {f: y, g: y}]", "[[k: x, k2: x], [k: x, k2: y]]",
+	"[{f: x, g: x}, {g: x, f: x}][0].g", "{f: [x, x], g: [x]}", "if(c, {f: x, g: x}, {f: x, g: y})", "[{f: xs, g: xs}, {f: [x], g: [y]}]",
 	"type", "let + 1", "[x][0].a", "{f: x}.f", "{f: x}.g", "get(mo, k, o)", "get(o, o)", "o + 1", "o.a", "o[0]", "len(o)", "o == o",
 }
 
